@@ -291,7 +291,23 @@ class ProvXMLSerializer(Serializer):
                 )
                 attributes.append((PROV["type"], value))
 
+            extra_members = []
+            if rec_type == PROV_MEMBERSHIP:
+                # a membership listing several entities stands for one
+                # hadMember per entity (as the PROV-JSON reader treats it)
+                members = [a for a in attributes if a[0] == PROV_ATTR_ENTITY]
+                extra_members = members[1:]
+                for extra_member in extra_members:
+                    attributes.remove(extra_member)
+
             rec = bundle.new_record(rec_type, rec_id, attributes)
+            for extra_member in extra_members:
+                bundle.new_record(
+                    rec_type,
+                    None,
+                    [a for a in attributes if a[0] == PROV_ATTR_COLLECTION]
+                    + [extra_member],
+                )
 
             # Add the actual type in case a base type has been used.
             if rec_type != q_prov_name:
